@@ -171,9 +171,14 @@ fn history(idx: u64, len: usize, use_call: bool, rec: &mut Rec) {
 fn random_history(rng: &mut Rng, rec: &mut Rec) {
     let use_call = rng.chance(1, 2);
     let explicit = rng.chance(1, 3);
-    let variant: u16 = rng.below(8) as u16 | [0u16, 0, 0, 8, 16, 0, 0, 0][rng.below(8) as usize] | (rng.below(4) as u16) << 5 | [0u16, 0, 256, 512, 1024, 0, 2048, 0][rng.below(8) as usize]
+    let variant: u32 = rng.below(8) as u32 | [0u32, 0, 0, 8, 16, 0, 0, 0][rng.below(8) as usize] | (rng.below(4) as u32) << 5 | [0u32, 0, 256, 512, 1024, 0, 2048, 0][rng.below(8) as usize]
         | if rng.chance(1, 4) { 8192 } else { 0 }
-        | if rng.chance(1, 3) { 128 } else { 0 };
+        | if rng.chance(1, 3) { 128 } else { 0 }
+        | if rng.chance(1, 5) { 32768 } else { 0 };
+    if variant & 32768 != 0 && !use_call && variant & 2048 == 0 && (explicit || variant & 4 != 0) && variant & 2 == 0 {
+        // the caller added "transfer-encoding: gzip" in Prepare: the list stands on two lines that are not adjacent
+        rec.cov("sender/coding-list-split-over-added-and-original");
+    }
     if variant & 8192 != 0 && !use_call && variant & 2048 == 0 {
         // the head went out one line per write, the empty line alone into a roomy buffer
         rec.cov("sender/head-line-by-line");
